@@ -86,7 +86,10 @@ def replay(p):
         M = np.array(p['M'], dtype=U8)
         n = M.shape[0] // 2
         try:
-            t = sp.to_int_tuple(M)
+            M_in = M.copy()
+            t = sp.to_int_tuple(M_in)
+            if not np.array_equal(M_in, M):
+                return True, f'to_int_tuple modified its argument: {M.tolist()} became {M_in.tolist()}'
             base = sp.get_number(n, 'base')
             inr = all(0 <= int(x) < b for x, b in zip(t, base))
             back = sp.from_int_tuple(t)
@@ -238,8 +241,9 @@ def run(chk):
         base = sp.get_number(n, 'base')
 
         def f_m():
-            t = sp.to_int_tuple(M)
-            return t, sp.from_int_tuple(t)
+            Mc = M.copy()                    # the array object handed to the code (fresh per execution); the caller keeps using it afterwards
+            t = sp.to_int_tuple(Mc)
+            return t, sp.from_int_tuple(t), Mc
         paths, st = H.run_paths(f_m, symp, extra_globals=STUBS)
         chk.add_path_stats(st)
         chk.configurations += 1
@@ -249,9 +253,10 @@ def run(chk):
             if path.status != 'return':
                 chk.add(f'to_int_tuple raises {type(path.value).__name__} on a symplectic matrix [n={n}] path {pi}', pre, ir.FALSE, key='to_int_tuple raises', replay=rp)
                 continue
-            t, back = path.value
+            t, back, Mc = path.value
             inrange = ir.band_all(ir.band(S.as_sb(v >= 0).n, S.as_sb(v < b).n) for v, b in zip(t, base))
             chk.add(f'to_int_tuple(M) in range and from_int_tuple inverts it, all symplectic M [n={n}] path {pi}', pre, ir.band(inrange, eq_arr(back, M)), key='to_int_tuple not inverse / out of range', replay=rp)
+            chk.add(f"to_int_tuple(M) leaves the caller's array M unchanged, all symplectic M [n={n}] path {pi}", pre, eq_arr(Mc, M), key='to_int_tuple modifies its argument', replay=rp)
         with facade.patched():
             Mi = sp.inverse(M)
         prod1 = (np.dot(A.plain(M), A.plain(Mi))) % 2
